@@ -333,6 +333,25 @@ pub fn g_case(max_len: usize) -> BS<(Case, &'static str)> {
         .boxed()
 }
 
+/// Streams made of many copies of small datums: state that leaks from one
+/// top-level datum to the next shows up only after many of them.
+fn g_repetition() -> BS<(Case, &'static str)> {
+    let unit = prop_oneof![
+        Just("()"), Just("#()"), Just("[]"), Just("(a)"), Just("'a"), Just("#u8()"), Just("(a . b)"), Just("[a]"),
+        Just("#(#())"), Just("((a))"), Just(",@a"), Just("`(a ,b)"), Just("\"s\""), Just("1"),
+    ];
+    (proptest::collection::vec(unit, 1..4), 100usize..400, g_qopt_index(), 0u8..3)
+        .prop_map(|(units, n, q, source)| {
+            let mut input = Vec::new();
+            for i in 0..n {
+                input.extend_from_slice(units[i % units.len()].as_bytes());
+                input.push(if i % 7 == 0 { b'\n' } else { b' ' });
+            }
+            (Case { input, q, source }, "repetition")
+        })
+        .boxed()
+}
+
 fn run(ctx: &mut Ctx) {
     let tier = ctx.tier;
     use rayon::prelude::*;
@@ -343,6 +362,7 @@ fn run(ctx: &mut Ctx) {
         .map(|w| {
             let mut c = parent.fork();
             c.run_prop(&format!("inputs/{}", w), tier.pick(5_000, 120_000), g_case(max_len), |(c, l)| check_case(c, l));
+            c.run_prop(&format!("repetition/{}", w), tier.pick(30, 600), g_repetition(), |(c, l)| check_case(c, l));
             c
         })
         .collect();
